@@ -31,7 +31,12 @@ func pfDict(l string) (string, bool) {
 	seen := map[string]bool{}
 	var out []string
 	huge := false
-	add := func(c string) {
+	add := func(c string, rate bool) {
+		if rate { // a tiny sample rate asks for 1/rate events: keep the harness from exhausting memory
+			if v, err := strconv.ParseFloat(c, 64); (err == nil || errors.Is(err, strconv.ErrRange)) && v != 0 && math.Abs(v) < 1e-4 {
+				huge = true
+			}
+		}
 		if seen[c] {
 			return
 		}
@@ -45,15 +50,12 @@ func pfDict(l string) (string, bool) {
 				return
 			}
 		}
-		if v != 0 && math.Abs(v) < 1e-4 {
-			huge = true
-		}
 		out = append(out, enc(c)+"="+bits(v)+":"+e)
 	}
 	both := func(c string) {
-		add(c)
+		add(c, false)
 		if strings.HasPrefix(c, "@") {
-			add(c[1:])
+			add(c[1:], true)
 		}
 	}
 	for _, p := range strings.Split(l, "|") {
